@@ -487,6 +487,9 @@ func runPVPath(c *core.Ctx) {
 			if usesDigest(p) {
 				tags = append(tags, "digest")
 			}
+			if up := storeConst(c, "uploadDir"); up != "" && (hasPart(p, up) || core.FuncPkgPath(s.fn) == r.StorePath && sinkInUploadCreator(s)) {
+				tags = append(tags, "session")
+			}
 			c.SetTags(tags...)
 			if ok {
 				c.Pass(key, s.call.Pos(), "composed of allowed components only")
@@ -556,5 +559,22 @@ func usesDigest(v ssa.Value) bool {
 		}
 	}
 	walk(v, 0)
+	return found
+}
+
+// sinkInUploadCreator: the call creates a file (Create / CreateTemp / OpenFile) in a function that also
+// registers an upload session (the session's temporary file).
+func sinkInUploadCreator(s fsSink) bool {
+	switch s.name {
+	case "os.Create", "os.CreateTemp", "os.OpenFile":
+	default:
+		return false
+	}
+	found := false
+	an.Calls(s.fn, func(call ssa.CallInstruction) {
+		if f := an.FuncObj(call); f != nil && f.Name() == "genSessionID" {
+			found = true
+		}
+	})
 	return found
 }
